@@ -370,3 +370,57 @@ impl VerifDsu {
         self.0.verif_state()
     }
 }
+
+// ---------------------------------------------------------------------------
+// cone operations (crate-private `Cone` trait) on a composite cone built from a cone list
+// ---------------------------------------------------------------------------
+
+/// Step lengths (alpha_z, alpha_s) for the composite cone, as the solver computes them.
+/// With `scale_first` the scaling is updated at (s, z) first (needed by PSD cones).
+#[allow(clippy::too_many_arguments)]
+pub fn cones_step_length(
+    cones: &[crate::solver::SupportedConeT<f64>],
+    dz: &[f64],
+    ds: &[f64],
+    z: &[f64],
+    s: &[f64],
+    settings: &crate::solver::DefaultSettings<f64>,
+    alpha_max: f64,
+    scale_first: bool,
+) -> (f64, f64) {
+    use crate::solver::core::cones::{CompositeCone, Cone};
+    use crate::solver::core::ScalingStrategy;
+    let mut cc = CompositeCone::<f64>::new(cones);
+    if scale_first {
+        cc.update_scaling(s, z, 1.0, ScalingStrategy::PrimalDual);
+    }
+    cc.step_length(dz, ds, z, s, settings, alpha_max)
+}
+
+/// (alpha, beta) margins of `v` with respect to the composite cone (dual = false) or its dual.
+pub fn cones_margins(cones: &[crate::solver::SupportedConeT<f64>], v: &mut [f64], dual: bool) -> (f64, f64) {
+    use crate::solver::core::cones::{CompositeCone, Cone, PrimalOrDualCone};
+    let mut cc = CompositeCone::<f64>::new(cones);
+    cc.margins(v, if dual { PrimalOrDualCone::DualCone } else { PrimalOrDualCone::PrimalCone })
+}
+
+/// v <- v + alpha * e  (scaled unit shift of the composite cone)
+pub fn cones_unit_shift(cones: &[crate::solver::SupportedConeT<f64>], v: &mut [f64], alpha: f64, dual: bool) {
+    use crate::solver::core::cones::{CompositeCone, Cone, PrimalOrDualCone};
+    let cc = CompositeCone::<f64>::new(cones);
+    cc.scaled_unit_shift(v, alpha, if dual { PrimalOrDualCone::DualCone } else { PrimalOrDualCone::PrimalCone })
+}
+
+/// `symmetric_initialization` of DefaultVariables on a composite cone built from `cones`:
+/// shifts s into the cone and z into the dual cone.
+pub fn shift_to_interior(cones: &[crate::solver::SupportedConeT<f64>], s: &mut Vec<f64>, z: &mut Vec<f64>) {
+    use crate::solver::core::cones::CompositeCone;
+    use crate::solver::core::traits::Variables;
+    let mut cc = CompositeCone::<f64>::new(cones);
+    let mut v = crate::solver::DefaultVariables::<f64>::new(1, s.len());
+    v.s.copy_from_slice(s);
+    v.z.copy_from_slice(z);
+    v.symmetric_initialization(&mut cc);
+    s.copy_from_slice(&v.s);
+    z.copy_from_slice(&v.z);
+}
